@@ -93,6 +93,10 @@ fn c16_abs_least_greatest() {
     assert!(is_float(&frag_fn_least(sv("-3"), vec![sv("1")]), -3.0), "OBL C16.least: the first argument counts");
     assert!(is_float(&frag_fn_greatest(sv("3"), vec![sv("7"), sv("x")]), 7.0), "OBL C16.greatest: ill-typed later arguments are skipped");
     assert!(is_empty_value(&frag_fn_greatest(sv("x"), vec![sv("7")])), "OBL C16.greatest: ill-typed first argument -> empty value");
+    assert!(is_float(&frag_fn_greatest(sv("-5"), vec![sv("-3")]), -3.0), "OBL C16.greatest: all arguments negative");
+    assert!(is_float(&frag_fn_greatest(sv("0"), vec![sv("-1")]), 0.0), "OBL C16.greatest: zero is the greatest of 0 and -1");
+    assert!(is_float(&frag_fn_least(sv("5"), vec![sv("7")]), 5.0), "OBL C16.least: all arguments positive");
+    assert!(is_float(&frag_fn_greatest(sv("2"), vec![]), 2.0) && is_float(&frag_fn_least(sv("2"), vec![]), 2.0), "OBL C16.least/greatest: a single argument is its own least and greatest");
 }
 #[kani::proof]
 #[kani::unwind(12)]
